@@ -8,9 +8,12 @@ Depth == atoi(EnvOr("VERIF_DEPTH", "3"))
 GenInit == Init /\ hist = <<>>
 GenNext == NextP(TRUE) /\ hist' = Append(hist, [act |-> vAct', obs |-> Obs'])
 GenSpec == GenInit /\ [][GenNext]_<<mvars, hist>>
+MaxRej == atoi(EnvOr("VERIF_MAXREJ", "99"))
+FewRej == Cardinality({i \in DOMAIN hist : hist[i].act.res = "exc"}) <= MaxRej
 Bound == TLCGet("level") <= Depth
 \* a behaviour also ends at a "collide" step (nothing specific can be predicted afterwards)
 Ended == vAct.res = "collide"
-Emit == (TLCGet("level") = Depth + 1 \/ Ended) => PrintT(ToJson([lang |-> EnvOr("VERIF_LANG", "LTiny"), hist |-> hist]))
+Emit == ((TLCGet("level") = Depth + 1 \/ Ended) /\ FewRej) => PrintT(ToJson([lang |-> EnvOr("VERIF_LANG", "LTiny"), hist |-> hist]))
 StopAtEnd == ~Ended
+FewRejections == FewRej
 =============================================================================
